@@ -271,6 +271,46 @@ prop("C10",
      note="trusts the model for accept/reject and padding; the library-vs-library padding relation is independent of it",
      design_ref="DESIGN.md#c10")
 
+
+# ----------------------------------------------------------------------------- C08 (memcheck taint monitor)
+VG = ["valgrind", "--tool=memcheck", "-q", "--error-limit=no", "--leak-check=no", "--undef-value-errors=yes",
+      "--error-exitcode=0", "--num-callers=12", "--read-var-info=no", "--partial-loads-ok=yes"]
+W32 = LibCfg(name="shipped-32bit-words", defs=["SKINNY_VERIF_64BIT=0"])
+NOSIMD = LibCfg(name="no-simd", defs=["SKINNY_VERIF_VEC128_MATH=0", "SKINNY_VERIF_VEC256_MATH=0"])
+NOVEC256 = LibCfg(name="no-vec256", vec256="")
+CLANG_O3 = LibCfg(name="clang-O3", cc="clang")
+
+def c08_units(tier):
+    u = [Unit("c08", "c08.cpp", SHIPPED, cases=scale(tier, 350, 6000), shards=12 if tier == "quick" else 16, wrapper=VG, timeout=3000),
+         Unit("c08-w32", "c08.cpp", W32, cases=scale(tier, 200, 3000), shards=2 if tier == "quick" else 8, wrapper=VG, timeout=3000),
+         Unit("c08-novec256", "c08.cpp", NOVEC256, cases=scale(tier, 200, 3000), shards=2 if tier == "quick" else 8, wrapper=VG, timeout=3000)]
+    if tier == "thorough":
+        u += [Unit("c08-nosimd", "c08.cpp", NOSIMD, cases=3000, shards=8, wrapper=VG, timeout=3000),
+              Unit("c08-clang", "c08.cpp", CLANG_O3, cases=3000, shards=8, wrapper=VG, timeout=3000)]
+    return u
+
+prop("C08",
+     units=c08_units,
+     level="exploration",
+     rule=("generated public-parameter programs (cipher, key length incl. in-between, Mantis rounds / mode, back end, op sequence: "
+           "key / tweaked-key / tweak / counter set-up, single blocks, CTR chunking, parallel block counts, mid-stream changes, "
+           "buffer placements) executed inside valgrind/memcheck with every key, tweak, counter, data and tweak-array buffer "
+           "marked undefined before each call; violation = any memcheck report (conditional jump / address depends on "
+           "uninitialised value) inside a library call, or a secret-dependent return value; positive controls (leaky table "
+           "look-up, leaky branch) and a negative control run at every start; non-trivial = at least one data-processing call "
+           "with >= 1 block of poisoned data on a keyed object; distinct = distinct *public* programs (secret values removed)"),
+     assumptions=["valgrind 3.19 memcheck's bit-precise definedness propagation is sound for the instructions used (SSE2/AVX2 included); "
+                  "cmov/setcc-style data-flow uses of flags would be reported too (none occur)",
+                  "binary under test: library objects exactly as the shipped flags build them (gcc -O3 -std=c99 -msse2/-mavx2; hooks compiled in "
+                  "but inert), plus the VEC256-less build and the 32-bit-word override; thorough adds SIMD-less and clang -O3",
+                  "micro-architectural timing (variable-latency instructions) is out of scope: the statement is about branches and addresses"],
+     technique="taint monitoring under valgrind/memcheck of rapidcheck-generated public-parameter programs (all secrets poisoned)",
+     text=("Monitored execution: secrets are poisoned, so a clean run of one public program shows that no branch and no address in "
+           "that run depended on any secret bit - it generalises over all secret values of that program. What is sampled is the "
+           "space of public programs and build configurations."),
+     note="trusts memcheck's taint propagation; checks the shipped object code, not an instrumented recompilation",
+     design_ref="DESIGN.md#c08")
+
 # ----------------------------------------------------------------------------- generic entry points
 def run(pid, tier, seed, replay):
     p = PROPS[pid]
